@@ -57,8 +57,8 @@ Theorem C08_compiler_result_has_back_conversion :
 Proof. exact compiler_result_has_back_conversion. Qed.
 Print Assumptions C08_compiler_result_has_back_conversion.
 
-(* the checker applied to the compiled problems decides: unique names, every referenced fluent / object / type /
-   parameter / action declared *)
+(* the checker applied to the compiled problems decides: unique names, unique parameter names within every fluent
+   signature and every action, every referenced fluent / object / type / parameter / action declared *)
 Theorem C08_wf_checker_decides : forall P, wf_np P = true <-> wf_problem P.
 Proof. exact wf_np_spec. Qed.
 Print Assumptions C08_wf_checker_decides.
@@ -80,12 +80,20 @@ Example C08_result_nonvacuous :
 Proof. eexists. split; reflexivity. Qed.
 
 Example C08_wf_nonvacuous :
-  wf_np {| np_types := [("T", "")]; np_objects := [("a_b", "T")]; np_fluents := [("f", ["T"])];
+  wf_np {| np_types := [("T", "")]; np_objects := [("a_b", "T")]; np_fluents := [("f", [("x", "T")])];
            np_actions := [{| na_name := "act"; na_params := [("p", "T")];
                              na_refs := {| rf_fluents := [("f", 1)]; rf_objects := ["a_b"]; rf_types := ["T"]; rf_params := ["p"] |} |}];
            np_refs := {| rf_fluents := [("f", 1)]; rf_objects := ["a_b"]; rf_types := []; rf_params := [] |};
            np_action_refs := ["act"] |} = true /\
-  wf_np {| np_types := [("T", "")]; np_objects := [("a_b", "T")]; np_fluents := [("f", ["T"])];
+  wf_np {| np_types := [("T", "")]; np_objects := [("a_b", "T")]; np_fluents := [("f", [("x", "T")])];
            np_actions := []; np_refs := {| rf_fluents := [("g", 0)]; rf_objects := []; rf_types := []; rf_params := [] |};
            np_action_refs := [] |} = false.
 Proof. split; vm_compute; reflexivity. Qed.
+
+(* two parameters of one fluent with the same name (via[location, location_0, location_0]) are rejected *)
+Example C08_wf_duplicate_fluent_parameter :
+  wf_np {| np_types := [("Location", "")]; np_objects := []; 
+           np_fluents := [("via", [("location", "Location"); ("location_0", "Location"); ("location_0", "Location")])];
+           np_actions := []; np_refs := {| rf_fluents := []; rf_objects := []; rf_types := []; rf_params := [] |};
+           np_action_refs := [] |} = false.
+Proof. vm_compute. reflexivity. Qed.
